@@ -5,6 +5,7 @@ import (
 	"fmt"
 	"testing"
 	"time"
+	_ "time/tzdata" // the zone database is embedded: the checks must not depend on the host's files
 
 	"github.com/Comcast/gots/v2/ebp"
 	"pgregory.net/rapid"
@@ -18,9 +19,10 @@ import (
 type CaseC12 struct {
 	EBP ref.EBP `json:"ebp"`
 	// time round trip: an instant as unix seconds + nanoseconds
-	Sec  int64 `json:"t_sec"`
-	Nsec int64 `json:"t_nsec"`
-	Zone int   `json:"t_zone_offset_s,omitempty"` // the instant is handed over as a time.Time in a fixed zone with this UTC offset (0 = UTC)
+	Sec      int64  `json:"t_sec"`
+	Nsec     int64  `json:"t_nsec"`
+	ZoneName string `json:"t_zone_name,omitempty"`     // ... or in this zone-database location (daylight saving rules; instants near the transitions)
+	Zone     int    `json:"t_zone_offset_s,omitempty"` // the instant is handed over as a time.Time in a fixed zone with this UTC offset (0 = UTC)
 }
 
 const (
@@ -85,7 +87,18 @@ func genC12(t *rapid.T) CaseC12 {
 	default:
 		c.Nsec = rapid.Int64Range(0, 999999999).Draw(t, "ns")
 	}
-	switch rapid.IntRange(0, 3).Draw(t, "zone-kind") {
+	switch rapid.IntRange(0, 4).Draw(t, "zone-kind") {
+	case 4:
+		// a location with daylight saving time, at an instant within two hours of one of its transitions
+		// (wall-clock hours that occur twice or not at all)
+		c.ZoneName = rapid.SampledFrom(c12Zones).Draw(t, "zone-name")
+		tr := c12Transitions(c.ZoneName)
+		if len(tr) > 0 {
+			at := tr[rapid.IntRange(0, len(tr)-1).Draw(t, "zone-transition")] + rapid.Int64Range(-7200, 7200).Draw(t, "zone-delta")
+			if at >= c12MinUnix && at < c12MaxUnix {
+				c.Sec = at
+			}
+		}
 	case 0:
 		c.Zone = rapid.SampledFrom([]int{-12 * 3600, 14 * 3600, 19800, -12600, 3600, -18000, 1, -1}).Draw(t, "zone-b")
 	case 1:
@@ -322,7 +335,14 @@ func checkC12(c CaseC12, x *hx.Ctx) *hx.Failure {
 		return hx.Failf("bad-case", "instant outside the representable range")
 	}
 	t := time.Unix(c.Sec, c.Nsec).UTC()
-	if c.Zone != 0 {
+	if c.ZoneName != "" {
+		loc, lerr := time.LoadLocation(c.ZoneName)
+		if lerr != nil {
+			return hx.Failf("harness-zone", "zone database entry %q not available: %v", c.ZoneName, lerr)
+		}
+		t = t.In(loc)
+		x.Label("instant-in-DST-location")
+	} else if c.Zone != 0 {
 		// the same instant on another wall clock
 		t = t.In(time.FixedZone("harness", c.Zone))
 		x.Label("instant-in-non-UTC-zone")
@@ -355,10 +375,35 @@ func checkC12(c CaseC12, x *hx.Ctx) *hx.Failure {
 	return nil
 }
 
+var c12Zones = []string{"America/New_York", "Europe/Berlin", "Australia/Lord_Howe", "America/St_Johns", "Asia/Tehran"}
+
+var c12TransitionCache = map[string][]int64{}
+
+// c12Transitions lists the unix times (1970..2037) at which the UTC offset of the location changes.
+func c12Transitions(name string) []int64 {
+	if tr, ok := c12TransitionCache[name]; ok {
+		return tr
+	}
+	var tr []int64
+	if loc, err := time.LoadLocation(name); err == nil {
+		start := time.Date(1970, 1, 1, 0, 0, 0, 0, time.UTC).Unix()
+		end := time.Date(2037, 12, 31, 0, 0, 0, 0, time.UTC).Unix()
+		_, prev := time.Unix(start, 0).In(loc).Zone()
+		for u := start; u < end; u += 1800 {
+			if _, off := time.Unix(u, 0).In(loc).Zone(); off != prev {
+				tr = append(tr, u)
+				prev = off
+			}
+		}
+	}
+	c12TransitionCache[name] = tr
+	return tr
+}
+
 var propC12 = hx.Register(hx.Prop[CaseC12]{ID: "C12", Gen: genC12, Check: checkC12})
 
 func c12Rule() {
-	hx.Rec("C12").SetRule("cases: a reference-model EBP of either flavour (any flags byte, extension flags, SAP byte, Comcast one grouping byte / CableLabs chain of 1..6 seven-bit ids biased to 0x1C/0x1D, NTP seconds and fraction from boundary sets, partition byte, 0..20 reserved trailing bytes or as many as make data_field_length 128..255, format identifier EBP0 or arbitrary) and an instant in [1968-01-20T03:14:08Z, 2104-02-26T09:42:24Z) biased to second edges (x.000000000, x.999999999, x.999999998), multiples of 1/512 s and the two era edges, handed over as a time.Time in UTC or (half of the cases) in a fixed zone with an offset up to +-18 h. Oracle: getters = model, EBPTime = era + seconds + floor(fraction*10^9/2^32) ns by exact integer arithmetic, StreamSyncSignal = first id in {0x1C,0x1D} else 0xFF, Data() of the decoded object = input bytes; the same model realised through Create*/setters/exported fields encodes to bytes that decode to the same getters with length byte = bytes that follow; |EBPTime(SetEBPTime(t)) - t| <= 1 ns directly and through the wire. Enumerated: all 256 flag bytes x both flavours x {no ext partition, partition} with minimal bodies. Non-trivial: >= 3 flags set, or a chain >= 3, or reserved bytes, or an instant within 2 ns of a second edge.",
+	hx.Rec("C12").SetRule("cases: a reference-model EBP of either flavour (any flags byte, extension flags, SAP byte, Comcast one grouping byte / CableLabs chain of 1..6 seven-bit ids biased to 0x1C/0x1D, NTP seconds and fraction from boundary sets, partition byte, 0..20 reserved trailing bytes or as many as make data_field_length 128..255, format identifier EBP0 or arbitrary) and an instant in [1968-01-20T03:14:08Z, 2104-02-26T09:42:24Z) biased to second edges (x.000000000, x.999999999, x.999999998), multiples of 1/512 s and the two era edges, handed over as a time.Time in UTC or (half of the cases) in a fixed zone with an offset up to +-18 h or in a zone-database location with daylight saving time within two hours of a transition. Oracle: getters = model, EBPTime = era + seconds + floor(fraction*10^9/2^32) ns by exact integer arithmetic, StreamSyncSignal = first id in {0x1C,0x1D} else 0xFF, Data() of the decoded object = input bytes; the same model realised through Create*/setters/exported fields encodes to bytes that decode to the same getters with length byte = bytes that follow; |EBPTime(SetEBPTime(t)) - t| <= 1 ns directly and through the wire. Enumerated: all 256 flag bytes x both flavours x {no ext partition, partition} with minimal bodies. Non-trivial: >= 3 flags set, or a chain >= 3, or reserved bytes, or an instant within 2 ns of a second edge.",
 		"data_field_length up to 255 (beyond the 183 bytes that fit transport private data: the decoder API takes any byte string); non-empty EBPs only",
 		"Set*Flag(false) is a no-op by design: the builder path only sets flags",
 		"EBPSuccessReadTime (wall clock) is never compared")
